@@ -304,6 +304,27 @@ async fn term(a: &[String]) -> Vec<String> {
     let code = arg(a, 3).parse::<u64>().unwrap_or(0);
     let reason = unhex_lenient(arg(a, 4));
     let when = arg(a, 5).to_string();
+    const STYLES: [&str; 13] = [
+        "capsule",
+        "capsule_fin",
+        "fin",
+        "reset",
+        "fin_mid_frame",
+        "quic_close",
+        "capsule_short",
+        "capsule_long",
+        "capsule_bad_utf8",
+        "ctrl_reset",
+        "ctrl_fin",
+        "drop_all",
+        "local_close",
+    ];
+    if !STYLES.contains(&style.as_str()) {
+        return term_fail("bad_style".into());
+    }
+    if (style == "quic_close" || style == "local_close") && code >= 1 << 62 {
+        return term_fail("bad_code".into());
+    }
 
     let Est {
         rt,
@@ -572,8 +593,18 @@ async fn drop_handles(a: &[String]) -> Vec<String> {
     {
         errs.push(t);
     }
+    // quinn keeps a closed connection in the endpoint's table for its drain period (3 x PTO,
+    // normally ~100 ms on loopback but dependent on the RTT estimate, i.e. on machine load):
+    // read after 1 s, and when it is not gone yet look again for up to 3 s more
     tokio::time::sleep(ms(1000)).await;
-    let open = ep.open_connections();
+    let mut open = ep.open_connections();
+    for _ in 0..12 {
+        if open == 0 {
+            break;
+        }
+        tokio::time::sleep(ms(250)).await;
+        open = ep.open_connections();
+    }
     let pc = task_value(peer_close_task, 5000).await;
     let mut obs = vec![format!("peer_close={pc}"), format!("open_connections={open}")];
     if !errs.is_empty() {
@@ -660,7 +691,13 @@ async fn write_cut(
     tokio::time::sleep(ms(CUT_GAP_MS)).await;
     inject(conn, keep, event, other).await?;
     tokio::time::sleep(ms(CUT_GAP_MS)).await;
-    raw_write(s, target[cut..].to_vec()).await
+    raw_write(s, target[cut..].to_vec()).await?;
+    // Nothing else of the raw peer travels together with the second piece: whatever the script
+    // does next (opening the request stream, …) would be one more event racing with it, and
+    // `none` would not mean none (seen: `settings` cut with event `none` torn about 1 in 12
+    // times when the CONNECT request followed the second piece immediately).
+    tokio::time::sleep(ms(CUT_GAP_MS)).await;
+    Ok(())
 }
 
 fn cut_obs(outcome: String, peer_close: String, len: usize, err: Option<String>) -> Vec<String> {
@@ -824,6 +861,7 @@ async fn ctrl_cut(a: &[String]) -> Vec<String> {
                         inject(&conn, &mut keep, &event, other).await?;
                         tokio::time::sleep(ms(CUT_GAP_MS)).await;
                         raw_write(&mut ctrl, bytes[cut..].to_vec()).await?;
+                        tokio::time::sleep(ms(CUT_GAP_MS)).await;
                     } else {
                         write_cut(&mut ctrl, &std_ctrl, &bytes, cut, &conn, &mut keep, &event, None)
                             .await?;
@@ -852,15 +890,14 @@ async fn ctrl_cut(a: &[String]) -> Vec<String> {
                 Ok(Ok(Ok(c))) => ("established".into(), Some(c)),
                 Ok(Ok(Err(e))) => (e, None),
                 Ok(Err(_)) => ("trap".into(), None),
-                Err(_) => {
-                    app.abort();
-                    ("timeout".into(), None)
-                }
+                // the pending connect() is only given up after the raw peer has looked
+                Err(_) => ("timeout".into(), None),
             };
         let pc = match &raw_conn {
             Some(c) => canon::peer_close(c, 1000).await,
             None => "-".to_string(),
         };
+        app.abort();
         let err = raw_res.as_ref().err().map(|e| format!("raw:{e}"));
         // a raw side that failed because the endpoint gave up is explained by `outcome`
         let err = if outcome != "established" && outcome != "timeout" { None } else { err };
@@ -915,15 +952,14 @@ async fn ctrl_cut(a: &[String]) -> Vec<String> {
             Ok(Ok(Ok(c))) => ("established".into(), Some(c)),
             Ok(Ok(Err(e))) => (e, None),
             Ok(Err(_)) => ("trap".into(), None),
-            Err(_) => {
-                app.abort();
-                ("timeout".into(), None)
-            }
+            // the pending accept is only given up after the raw peer has looked
+            Err(_) => ("timeout".into(), None),
         };
     let pc = match &raw_conn {
         Some(c) => canon::peer_close(c, 1000).await,
         None => "-".to_string(),
     };
+    app.abort();
     let err = raw_res.as_ref().err().map(|e| format!("raw:{e}"));
     let err = if outcome != "established" && outcome != "timeout" { None } else { err };
     let _ = rt.run(async move { drop(conn) }).await;
@@ -1181,6 +1217,11 @@ async fn rules(a: &[String]) -> Vec<String> {
             None => "lost".to_string(),
             Some(s) => canon::raw_stopped(&mut s.send, 20).await,
         };
+        // The library never stops a stream with code 0 itself; `stopped:0` is quinn's implicit
+        // STOP_SENDING for a receive half that was dropped. When the endpoint closes the
+        // connection right after dropping the stream, whether that frame or the close is seen
+        // first is a race: on a closed connection it is reported as `lost`.
+        let v = if v == "stopped:0" && peer_close != "alive" { "lost".to_string() } else { v };
         streams.push(format!("{i}:{v}"));
     }
     let app_v = status
@@ -1735,12 +1776,14 @@ fn gen_c09(thorough: bool, rng: &mut Rng, emit: &mut dyn FnMut(&str, Vec<String>
         "reset",
     ];
     let whens: &[&str] = if thorough { &["pending", "streams", "idle"] } else { &["pending", "streams"] };
-    let rounds = if thorough { 6 } else { 1 };
+    // every case is a fresh schedule, so repetitions are worth having; the first round uses the
+    // fixed reason "bye", later rounds draw code and reason
+    let rounds: usize = if thorough { 12 } else { 3 };
     for round in 0..rounds {
         for style in styles {
             let uses_code = matches!(style, "local_close" | "quic_close" | "capsule");
-            if round > 0 && !uses_code && round > 2 {
-                // styles without parameters are repeated three times only
+            if !uses_code && round >= rounds.div_ceil(2) {
+                // styles without parameters are repeated half as often
                 continue;
             }
             for when in whens {
@@ -2059,7 +2102,7 @@ fn gen_c13(thorough: bool, rng: &mut Rng, emit: &mut dyn FnMut(&str, Vec<String>
         wire::varint_len(0x21, 8),
     ];
     if thorough {
-        for _ in 0..6 {
+        for _ in 0..3 {
             // random unknown / GREASE types
             let t = loop {
                 let t = rng.varint62();
@@ -2232,7 +2275,15 @@ fn gen_c13(thorough: bool, rng: &mut Rng, emit: &mut dyn FnMut(&str, Vec<String>
     }
 }
 
-fn gen_c16(_thorough: bool, _rng: &mut Rng, emit: &mut dyn FnMut(&str, Vec<String>)) {
+fn gen_c16(thorough: bool, _rng: &mut Rng, emit: &mut dyn FnMut(&str, Vec<String>)) {
+    // the library emits its settings in hash-map order, different in every connection:
+    // repetitions see different orders
+    for _ in 0..if thorough { 8 } else { 1 } {
+        gen_c16_round(emit);
+    }
+}
+
+fn gen_c16_round(emit: &mut dyn FnMut(&str, Vec<String>)) {
     for side in SIDES {
         for scenario in ["connect_accept", "connect_reject", "streams", "dgram"] {
             for rt in RTS {
